@@ -93,6 +93,12 @@ def make_obs(name, n):
         return SigmaY(absolute=True)
     if name == "NI":
         return NeighbourInteraction(c=1)
+    if name in ("deep_a", "deep_b", "deep_c"):
+        # long composites: 10 to 15 nested sums SigmaZ + 1 - 0.5 ... whose members differ in the LAST (outermost) term only
+        o = SigmaZ()
+        for i in range({"deep_a": 9, "deep_b": 9, "deep_c": 14}[name]):
+            o = o + 1 if i % 3 else o - 0.5
+        return o + {"deep_a": 2, "deep_b": 5, "deep_c": 2}[name]
     if name == "NIp":
         return NeighbourInteraction(periodic_bcs=True, c=1)
     if name == "composite":
@@ -143,7 +149,9 @@ def stat_cases(draw, tier):
     else:
         nc = draw(st.integers(0, ns + 2))
     c = {"type": t, "n": draw(st.integers(2, 3)), "num_samples": ns, "num_chains": nc, "burn_in": draw(st.integers(0, 3)), "steps": draw(st.integers(0, 3)),
-         "obs": draw(st.lists(st.sampled_from(OBS), min_size=1, max_size=3, unique=True)), "system": draw(st.booleans()),
+         "obs": draw(st.lists(st.sampled_from(OBS), min_size=1, max_size=3, unique=True)) if draw(st.integers(0, 7)) else
+                draw(st.lists(st.sampled_from(["deep_a", "deep_b", "deep_c", "SigmaZ"]), min_size=2, max_size=4, unique=True)),
+         "system": draw(st.booleans()), "aborted_first": draw(st.integers(0, 3)) == 0,
          "seed": draw(st.integers(0, 2 ** 31 - 1)), "mode": mode,
          "defaults": draw(st.integers(0, 19)) == 0}      # omit burn_in / steps: documented defaults 1000 / 1
     if mode == "user":
@@ -201,8 +209,35 @@ def check_stats(c):
         return {"excluded": 1, "nontrivial": False}
     obs = [make_obs(o, n) for o in c["obs"]]
     names = [o.name for o in obs]
+    sysobj = System(*obs)
+
+    def abort_one(run):
+        """after an exception: an earlier statistics call on the SAME System / observable object that was aborted, after at least one complete
+        draw, by an exception from a (user) observable and caught by the caller"""
+        victim = obs[-1]
+        real_apply, seen = victim.apply, []
+
+        def moody(nn_state, samples):
+            seen.append(1)
+            if len(seen) >= 2:
+                raise RuntimeError("user observable refuses this batch")
+            return real_apply(nn_state, samples)
+
+        victim.apply = moody
+        try:
+            run(dict(num_samples=7, num_chains=2, burn_in=1, steps=1))
+        except RuntimeError:
+            pass
+        finally:
+            del victim.apply
+        calls.clear()
+        if user is not None:
+            user.copy_(user_keep)
+
     if c["system"]:
-        res = System(*obs).statistics(state, **kw)
+        if c.get("aborted_first"):
+            abort_one(lambda kw_: sysobj.statistics(state, **kw_))
+        res = sysobj.statistics(state, **kw)
         require(isinstance(res, dict) and set(res.keys()) == set(names), "system:keys", f"System.statistics keys {sorted(res.keys())} != {sorted(names)}")
         all_calls = [calls]
         results = {nm: res[nm] for nm in names}
@@ -210,6 +245,8 @@ def check_stats(c):
     else:
         results, per_obs_calls = {}, {}
         for o in obs:
+            if c.get("aborted_first") and o is obs[-1]:
+                abort_one(lambda kw_: o.statistics(state, **kw_))
             calls.clear()
             if user is not None:
                 user.copy_(user_keep)
